@@ -2,6 +2,7 @@ import BbRe.Lemmas.SchedLiveRun
 import BbRe.Lemmas.SchedLiveResp
 import BbRe.Lemmas.SchedLiveTerm
 import BbRe.Lemmas.SchedLiveSleep
+import BbRe.Lemmas.SchedLiveWaiters3
 /-!
 # C02 — each waiter gets exactly one faithful final result
 
@@ -121,6 +122,30 @@ theorem completed_stream_wakes (s : State) (hs : Reachable s) (h : Hints) (c : N
   refine ⟨sendDone s c st.op op t r, ?_, by simp [stage_of_resp hr]⟩
   simp [streamWake, enter, hst, hop, ht, hne, streamSend, hr, hw, sendDone, bind, Except.bind, pure, Except.pure,
     dropStream]
+
+/-- **A parked stream's operation cannot disappear under it**: in every reachable state the operation of
+every parked stream exists, counts a waiter, and its task exists (the no-waiter cleanup only removes
+operations without waiters). -/
+theorem parked_stream_operation_exists (s : State) (hs : Reachable s) (st : Stream) (hst : st ∈ s.streams) :
+    ∃ op t, s.op? st.op = some op ∧ 0 < op.waiters ∧ s.task? op.task = some t :=
+  stream_op_exists hs hst
+
+/-- **no_lost_wakeup, final form.**  In every reachable state, for every client `c` with a parked stream
+whose task is completed, the stage-change wake-up segment succeeds and sends exactly the `done` message
+with the stored response, together with the return of the call. -/
+theorem completed_task_wakes_every_stream (s : State) (hs : Reachable s) (h : Hints) (c : Nat) (st : Stream)
+    (hst : s.streams.find? (fun x => x.client = c) = some st)
+    (hdone : ∀ op t, s.op? st.op = some op → s.task? op.task = some t → t.response.isSome = true) :
+    ∃ s' op t r, s.op? st.op = some op ∧ s.task? op.task = some t ∧ t.response = some r ∧
+      streamWake h s s.now c 0 = .ok s' ∧
+      s'.events = .ret c cOK :: .msg c st.op 4 true r.code r.tok :: s.events := by
+  obtain ⟨op, t, hop, hw, ht⟩ := stream_op_exists hs (List.mem_of_find?_eq_some hst)
+  have hsome := hdone op t hop ht
+  cases hr : t.response with
+  | none => rw [hr] at hsome; cases hsome
+  | some r =>
+    obtain ⟨s', e1, e2⟩ := completed_stream_wakes s hs h c st hst op t r hop ht hr (by omega)
+    exact ⟨s', op, t, r, hop, ht, hr, e1, e2⟩
 
 /-- non-vacuity: the demo state has a parked stream whose task is completed, with snapshot 0 < generation 1 -/
 example : sDemo.streams.any (fun st => match sDemo.op? st.op with
